@@ -521,7 +521,7 @@ pub fn finalize(ctx: &Ctx, meta: &CheckMeta, mut rep: Report, stuck: Vec<StuckCa
         "violated"
     } else if !rep.harness_errors.is_empty() {
         "harness-error"
-    } else if !unmet.is_empty() || (!stuck.is_empty() && new_total == 0) {
+    } else if (!unmet.is_empty() && ctx.only.is_none()) || (!stuck.is_empty() && new_total == 0) {
         "inconclusive"
     } else {
         "held-on-observed"
